@@ -234,9 +234,12 @@ func c05OpTerm(c *c05Chain, op c05Op, sysfee int64) string {
 	case "deployother":
 		return "ODeployOther"
 	case "deploy":
-		return fmt.Sprintf("(ODeploy %s)", c05N(op.F))
+		return fmt.Sprintf("(ODeploy %s %s)", c05N(op.F), c01ShapeTerm(u, c01ShapeManifest(c.t, u, op.F, op.K, false)))
 	case "cupdate":
-		return fmt.Sprintf("(OUpdate %s)", c05N(op.To))
+		if op.To < 1 || op.To > 14 {
+			return "OAbort"
+		}
+		return fmt.Sprintf("(OUpdate %s %s)", c05N(op.To), c01ShapeTerm(u, c01ShapeManifest(c.t, u, op.To, op.K, true)))
 	case "cdestroy":
 		return fmt.Sprintf("(ODestroy %s)", c05N(op.To))
 	case "role":
@@ -435,9 +438,13 @@ func c01CoqCase(c *c05Chain, in c01Input, blocks []*c05BlockRec, obs []*c01Obs) 
 		for j, q := range o.ContractQ {
 			cs[j] = fmt.Sprintf("(%d%%N,(%d,%d))", q.A, q.ID, q.Counter)
 		}
-		bs[i] = fmt.Sprintf("mkGB %s\n     (mkG %s %s %s %s [%s] [%s] [%s] [%s])", c05TxTerms(c, in.Ops, b),
+		ms := make([]string, len(o.ContractQ))
+		for j, q := range o.ContractQ {
+			ms[j] = fmt.Sprintf("(%d%%N,%s)", q.A, q.Shape)
+		}
+		bs[i] = fmt.Sprintf("mkGB %s\n     (mkG %s %s %s %s [%s] [%s] [%s] [%s] [%s])", c05TxTerms(c, in.Ops, b),
 			c05NList(o.Committee), c05NList(o.NextVals), c05NList(o.NewEpoch), c05NList(blocked), strings.Join(pol, ";"), strings.Join(ws, ";"),
-			strings.Join(rs, ";"), strings.Join(cs, ";"))
+			strings.Join(rs, ";"), strings.Join(cs, ";"), strings.Join(ms, ";"))
 	}
 	return fmt.Sprintf("CGov %s [%s]\n   [%s]", c05CfgTerm(c, in.Proto.HF, fx), strings.Join(restarts, ";"), strings.Join(bs, ";\n    "))
 }
